@@ -58,7 +58,7 @@ BRANCHES = "bra beq bne bcc bcs bmi bpl".split()
 
 def phys(mapping: str, addr: int) -> int:
     bank, off = addr >> 16, addr & 0xFFFF
-    if mapping in ("low", "low2"):
+    if mapping in ("low", "low2", "any"):
         b = bank - 0x80 if bank >= 0x80 else bank
         return b * 0x8000 + (off & 0x7FFF)
     b = bank - 0xC0 if bank >= 0xC0 else bank - 0x40
@@ -72,6 +72,9 @@ def pick_bank(rng: random.Random, mapping: str, far: bool, used: set[int]) -> in
             b = base + (rng.randrange(0, 0x50 if base else 0x70) if far else rng.randrange(0, 8))
         elif mapping == "low2":
             b = 0x80 + (rng.randrange(0, 0x50) if far else rng.randrange(0, 8))
+        elif mapping == "any":
+            # banks 0xC0-0xCF with offsets >= 0x8000 are ROM under low (mirror), low2 and high alike
+            b = 0xC0 + (rng.randrange(0, 0x10) if far else rng.randrange(0, 8))
         else:
             base = rng.choice([0x40, 0xC0])
             b = base + (rng.randrange(0, 0x3E if base == 0x40 else 0x40) if far else rng.randrange(0, 4))
@@ -83,7 +86,7 @@ def pick_bank(rng: random.Random, mapping: str, far: bool, used: set[int]) -> in
 
 
 def pick_offset(rng: random.Random, mapping: str) -> int:
-    lo = 0x8000 if mapping in ("low", "low2") else rng.choice([0x0000, 0x8000])
+    lo = 0x8000 if mapping in ("low", "low2", "any") else rng.choice([0x0000, 0x8000])
     return lo + rng.choice([0, 0, 0x10, 0x123, 0x1000, 0x3FF0, 0x5000, 0x6F00])
 
 
@@ -223,6 +226,28 @@ def recompute_assembled(prog: Prog) -> None:
         if cur == prev:
             break
         prev = cur
+
+
+def static_label_counts(prog: Prog) -> dict[str, int]:
+    """How many times each label name is *defined by an assembled statement* outside macro bodies and
+    .for bodies - known from the program tree alone, without running the assembler."""
+    recompute_assembled(prog)
+    counts: dict[str, int] = {}
+
+    def walk(nodes: list[Node], asm: bool) -> None:
+        for n in nodes:
+            if n["k"] == "label" and asm:
+                name = n["t"].strip().rstrip(":")
+                counts[name] = counts.get(name, 0) + 1
+            if "body" in n and n["k"] not in ("macro_def", "for"):
+                walk(n["body"], asm and bool(n.get("assembled", True)))
+                if n.get("else_body") is not None:
+                    walk(n["else_body"], asm and bool(n.get("else_assembled", False)))
+
+    walk(prog.root, True)
+    for nodes in prog.inc_roots.values():
+        walk(nodes, True)
+    return counts
 
 
 def iter_slots(prog: Prog) -> Iterator[dict[str, Any]]:
@@ -501,14 +526,18 @@ class Gen:
         return stmt("nop")
 
     # -- statement lists
-    def body(self, depth: int, in_loop_or_macro: bool, params: list[str] | None = None, want: int | None = None) -> list[Node]:
+    def body(self, depth: int, in_loop_or_macro: bool, params: list[str] | None = None, want: int | None = None, new_scope: bool = True) -> list[Node]:
+        """new_scope=False for .if / .else bodies: they do not open a scope of their own, so label
+        names used there share the name set of the enclosing body."""
         rng = self.rng
         out: list[Node] = []
         n = want if want is not None else rng.randrange(1, 5)
-        self.body_names.append(set())
+        if new_scope:
+            self.body_names.append(set())
         for _ in range(n):
             out += self.statement(depth, in_loop_or_macro, params)
-        self.body_names.pop()
+        if new_scope:
+            self.body_names.pop()
         return out
 
     def statement(self, depth: int, in_lm: bool, params: list[str] | None = None) -> list[Node]:
@@ -625,9 +654,9 @@ class Gen:
             return [block("{", self.body(depth + 1, in_lm, params), "block")]
         if kind == "if":
             cond, taken = self.condition()
-            n = block(f".if {cond} {{", self.body(depth + 1, in_lm, params), "if", assembled=taken)
+            n = block(f".if {cond} {{", self.body(depth + 1, in_lm, params, new_scope=False), "if", assembled=taken)
             if rng.random() < 0.6:
-                n["else_body"] = self.body(depth + 1, in_lm, params)
+                n["else_body"] = self.body(depth + 1, in_lm, params, new_scope=False)
                 n["else_assembled"] = not taken
             return [n]
         if kind == "for":
@@ -714,7 +743,9 @@ class Gen:
             self.prog.files[rel] = encode(recs)
             self.prog.roles[rel] = "ips_in"
             expr = f"{delta:#x}" if delta >= 0 else f"-{-delta:#x}"
-            return [stmt(f".include_ips '{self.ref(rel)}', {expr}", "include_ips")]
+            node = stmt(f".include_ips '{self.ref(rel)}', {expr}", "include_ips")
+            node["own"] = True  # part of the program itself (C13 inserts its directive under test separately)
+            return [node]
         if kind == "table":
             rel = f"{self.prefix}tbl{self.uid()}.tbl"
             chars = rng.sample("ABCDEFGHIJKLMNOPQRSTUVWXYZabcdefgh", rng.randrange(3, 12))
@@ -757,7 +788,7 @@ class Gen:
         root = prog.root
         far = "far_banks" in f
         n_sections = rng.choice([1, 1, 2, 3])
-        use_map = "map" in f and self.mapping != "low2"
+        use_map = "map" in f and self.mapping not in ("low2", "any")
         if use_map:
             root += self.custom_map()
         include_at = rng.randrange(n_sections) if "include" in f else -1
@@ -796,6 +827,8 @@ class Gen:
                     target = 0x7E0000 + rng.choice([0x2000, 0x4000, 0xFF00])
                 elif self.mapping == "high":
                     target = (rng.choice([0x40, 0x41, 0xC0, 0xC5]) << 16) | rng.choice([0x0100, 0x8100, 0x9000])
+                elif self.mapping == "any":
+                    target = (rng.choice([0xC0, 0xC3, 0xC9]) << 16) | rng.choice([0x8100, 0x9000, 0xC000])
                 elif self.mapping == "low":
                     target = (rng.choice([0x00, 0x02, 0x80, 0x85]) << 16) | rng.choice([0x8100, 0x9000, 0xC000])
                 else:
@@ -815,7 +848,7 @@ class Gen:
                 k = 0
             root.append(stmt(f"*={a + k:#08x}", "stareq"))
             root.append(stmt(".db " + ", ".join(self.lit(8) for _ in range(rng.randrange(2, 9)))))
-        if "big_incbin" in f and not use_map:
+        if "big_incbin" in f and not use_map and self.mapping != "any":
             # one contiguous block of more than 64 KiB (spills over the following banks)
             # total length of the contiguous block (the blob plus an optional trailing byte): exact multiples
             # of 65535 and their neighbours are the interesting cases for any writer that splits blocks
@@ -902,6 +935,8 @@ class Gen:
             return 0x058000  # below every custom range, not mirrored
         if self.mapping == "low":
             return 0x728000
+        if self.mapping == "any":
+            return 0  # depends on the ROM type the text is assembled under
         if self.mapping == "low2":
             return 0  # the low2 mapping (banks 0x80-0xFF mirrored at 0x00-0x7D, RAM 0x7E-0x7F) leaves no bank unmapped
         return 0x208000
